@@ -46,6 +46,84 @@ pub struct ConstEvalResult {
     pub value: Option<ConstValue>,
 }
 
+fn const_num(value: &ConstValue) -> Option<f64> {
+    match value {
+        ConstValue::Int(i) => Some(*i as f64),
+        ConstValue::Float(f) => Some(*f),
+        _ => None,
+    }
+}
+
+/// Evaluate `a <op> b` for numeric consts with the runtime's semantics (`incan_core` helpers).
+///
+/// `Ok(None)` means "not evaluated at compile time" (e.g. the result does not fit an `int`); `Err` carries the
+/// message of the run-time error the expression would raise.
+fn eval_numeric_binop(
+    op: &BinaryOp,
+    a: &ConstValue,
+    b: &ConstValue,
+    result: NumericTy,
+) -> Result<Option<ConstValue>, String> {
+    const ZERO_DIV: &str = "ZeroDivisionError: float division by zero";
+    if let (NumericTy::Int, ConstValue::Int(x), ConstValue::Int(y)) = (result, a, b) {
+        let v = match op {
+            BinaryOp::Add => x.checked_add(*y),
+            BinaryOp::Sub => x.checked_sub(*y),
+            BinaryOp::Mul => x.checked_mul(*y),
+            BinaryOp::FloorDiv | BinaryOp::Mod if *y == 0 => return Err(ZERO_DIV.to_string()),
+            BinaryOp::FloorDiv if *x == i64::MIN && *y == -1 => None,
+            BinaryOp::FloorDiv => Some(incan_core::py_floor_div_i64_impl(*x, *y)),
+            BinaryOp::Mod => Some(incan_core::py_mod_i64_impl(*x, *y)),
+            BinaryOp::Pow => u32::try_from(*y).ok().and_then(|e| x.checked_pow(e)),
+            _ => None,
+        };
+        return Ok(v.map(ConstValue::Int));
+    }
+    let (Some(x), Some(y)) = (const_num(a), const_num(b)) else {
+        return Ok(None);
+    };
+    if result != NumericTy::Float {
+        return Ok(None);
+    }
+    let v = match op {
+        BinaryOp::Add => x + y,
+        BinaryOp::Sub => x - y,
+        BinaryOp::Mul => x * y,
+        BinaryOp::Div | BinaryOp::FloorDiv | BinaryOp::Mod if y == 0.0 => return Err(ZERO_DIV.to_string()),
+        BinaryOp::Div => x / y,
+        BinaryOp::FloorDiv => (x / y).floor(),
+        BinaryOp::Mod => incan_core::py_mod_f64_impl(x, y),
+        BinaryOp::Pow => x.powf(y),
+        _ => return Ok(None),
+    };
+    // A non-finite result is left to the run-time expression (it has no literal spelling).
+    Ok(if v.is_finite() { Some(ConstValue::Float(v)) } else { None })
+}
+
+/// Evaluate a comparison between two const values of comparable kinds.
+fn eval_comparison(op: &BinaryOp, a: &ConstValue, b: &ConstValue) -> Option<bool> {
+    use std::cmp::Ordering;
+    let ord: Option<Ordering> = match (a, b) {
+        (ConstValue::Int(x), ConstValue::Int(y)) => Some(x.cmp(y)),
+        (ConstValue::Bool(x), ConstValue::Bool(y)) => Some(x.cmp(y)),
+        (ConstValue::FrozenStr(x), ConstValue::FrozenStr(y)) => Some(incan_core::strings::str_cmp(x, y)),
+        _ => match (const_num(a), const_num(b)) {
+            (Some(x), Some(y)) => x.partial_cmp(&y),
+            _ => None,
+        },
+    };
+    let ord = ord?;
+    Some(match op {
+        BinaryOp::Eq => ord == Ordering::Equal,
+        BinaryOp::NotEq => ord != Ordering::Equal,
+        BinaryOp::Lt => ord == Ordering::Less,
+        BinaryOp::LtEq => ord != Ordering::Greater,
+        BinaryOp::Gt => ord == Ordering::Greater,
+        BinaryOp::GtEq => ord != Ordering::Less,
+        _ => return None,
+    })
+}
+
 fn const_str(value: &ConstValue) -> Option<&str> {
     match value {
         ConstValue::FrozenStr(s) => Some(s.as_str()),
@@ -278,10 +356,14 @@ impl TypeChecker {
                 ) && is_str_like(&l.ty)
                     && is_str_like(&r.ty)
                 {
+                    let value = match (l.value.as_ref(), r.value.as_ref()) {
+                        (Some(a), Some(b)) => eval_comparison(op, a, b).map(ConstValue::Bool),
+                        _ => None,
+                    };
                     return Some(ConstEvalResult {
                         ty: ResolvedType::Bool,
                         kind: ConstKind::RustNative,
-                        value: None,
+                        value,
                     });
                 }
 
@@ -335,7 +417,19 @@ impl TypeChecker {
                                     NumericTy::Int => ResolvedType::Int,
                                     NumericTy::Float => ResolvedType::Float,
                                 };
-                                (ty, ConstKind::RustNative, None)
+                                // Compute the value with the same helpers the runtime uses, so that a const
+                                // holds exactly what the expression evaluates to at run time.
+                                let value = match (l.value.as_ref(), r.value.as_ref()) {
+                                    (Some(a), Some(b)) => match eval_numeric_binop(op, a, b, result) {
+                                        Ok(v) => v,
+                                        Err(msg) => {
+                                            self.errors.push(CompileError::type_error(msg, expr.span));
+                                            return None;
+                                        }
+                                    },
+                                    _ => None,
+                                };
+                                (ty, ConstKind::RustNative, value)
                             }
                             _ => {
                                 self.errors.push(CompileError::type_error(
@@ -354,11 +448,15 @@ impl TypeChecker {
                         // Validate operands are comparable (same type or both numeric)
                         let lhs_num = numeric_ty_from_resolved(&l.ty);
                         let rhs_num = numeric_ty_from_resolved(&r.ty);
+                        let value = match (l.value.as_ref(), r.value.as_ref()) {
+                            (Some(a), Some(b)) => eval_comparison(op, a, b).map(ConstValue::Bool),
+                            _ => None,
+                        };
                         if lhs_num.is_some() && rhs_num.is_some() {
                             // Mixed numeric comparison is valid
-                            (ResolvedType::Bool, ConstKind::RustNative, None)
+                            (ResolvedType::Bool, ConstKind::RustNative, value)
                         } else if self.types_compatible(&l.ty, &r.ty) {
-                            (ResolvedType::Bool, ConstKind::RustNative, None)
+                            (ResolvedType::Bool, ConstKind::RustNative, value)
                         } else {
                             self.errors.push(CompileError::type_error(
                                 format!("Cannot compare '{}' with '{}'", l.ty, r.ty),
